@@ -149,6 +149,10 @@ def _shell_job(job):
         elif kind == "names":
             toks = ["A", "b", " ", "-", "(", ")", "1", ",", "'"]
             names = [""] + ["".join(t) for n_ in (1, 2, 3) for t in itertools.product(toks, repeat=n_)]
+            # words the log format and the parser give a meaning to, as (part of) a user's description
+            words = ["DEBUG", "INFO", "WARNING", "ERROR", "SNAPSHOT", "snapshot", "STATV", "geckolib", "Connection found", "Spa pack",
+                     "Config version", "intouch version EN", "]", "[", "b'"]
+            names += words + [f"{w} pump 1" for w in words] + [f"pump {w}" for w in words] + [f"x{w}y" for w in words]
             for nm in names[lo:hi]:
                 n += 1
                 if nm.strip() != nm or nm == "":
@@ -483,7 +487,7 @@ def run(ctx):
     ctx.log(f"(d) simulator's own loss model: {evals} executions")
     jobs = [("blocks", lo, min(256, lo + 16)) for lo in range(0, 256, 16)]
     jobs += [("versions", lo, lo + 27) for lo in range(0, 216, 27)]
-    nnames = 1 + 9 + 81 + 729
+    nnames = 1 + 9 + 81 + 729 + 60
     jobs += [("names", lo, min(nnames, lo + 60)) for lo in range(0, nnames, 60)]
     jobs += [("packs", 0, 0)]
     for kind, n, bad in core.pmap(ctx, _shell_job, jobs, chunksize=1):
